@@ -459,7 +459,11 @@ func (e *Engine) findBoundedBacktracker(haystack []byte) *Match {
 		if !e.asciiBoundedBacktracker.CanHandle(len(haystack)) {
 			return e.findNFA(haystack)
 		}
-		start, end, found := e.asciiBoundedBacktracker.Search(haystack)
+		// The backtracker's own internal state is shared by every goroutine
+		// using the Regex: search with the pooled per-search state.
+		state := e.getSearchState()
+		start, end, found := e.asciiBoundedBacktracker.SearchWithState(haystack, state.backtracker)
+		e.putSearchState(state)
 		if !found {
 			return nil
 		}
